@@ -241,6 +241,30 @@ def units(w):
         it.check("post:N(date(n))==n", date_N(o.value) == zi(c["n"].fields["value"]))
     U.append(Unit("values.py::ValueInt.asDate", s_vint, p_asdate, allowed=(), abstractions=ABS))
 
+    # date(decimal): the day number reaches to_date as it is (the linear day number decimal(date) produces: no other convention
+    # for negative numbers or fractions), so that the two directions are inverse through the contracts of date.py
+    def s_vdec(it):
+        v = V.dec(it, "x")
+        it.ghost["to_date_args"] = []
+        return [v], {}, {"x": v}
+
+    def abs_to_date_rec(it, a, k, node):
+        it.ghost["to_date_args"].append(a[0])
+        d = new_datetime(w, it.fresh_int("ry"), it.fresh_int("rm"), it.fresh_int("rd"), it.fresh_int("rh"), it.fresh_int("rmi"), it.fresh_int("rs"), 0)
+        it.path.assume(dt_valid(d), check=False)
+        return d
+
+    def p_decdate(it, c, o):
+        calls = it.ghost["to_date_args"]
+        if o.kind == "return":
+            it.check("post:is-ValueDate-made-by-one-call-of-to_date", o.value.cls.name == "ValueDate" and len(calls) == 1)
+            if len(calls) == 1:
+                it.check("post:to_date-gets-the-decimal's-own-day-number(unchanged)", zr(calls[0]) == zr(c["x"].fields["value"]) if calls[0] is not None else False)
+        else:
+            it.check("raises:language-error-only", o.exc_class == "CklRuntimeError")
+    U.append(Unit("values.py::ValueDecimal.asDate", s_vdec, p_decdate, allowed=("CklRuntimeError",), abstractions={"to_date": abs_to_date_rec},
+                  name="values.py::ValueDecimal.asDate[day number passed to to_date unchanged]"))
+
     # ---- date arithmetic natives: d + n, d - n, d - d
     def s_arith(second_is_date):
         def setup(it):
@@ -524,9 +548,35 @@ def bounded(tier, seed):
                        ("every day of the years 1..9999" if tier == "thorough" else "first and last day and 28 Feb / 29 Feb / 1 Mar of every year 1..9999")
                        + ": day number == ordinal difference to 1899-12-30, to_date(number) == the day, consecutive days differ by 1",
                        dev, dev, dfails, ["2000-12-31"], "decides the day-level clauses by enumeration where the proof is undecided", time.time() - t1)
+    # the same through the language: date(decimal(d)) == d, (d + n) - n == d, (d + n) - d == n for dates with times of day on both
+    # sides of the day-number origin 1899-12-30
+    t2 = time.time()
+    import importlib
+    interp = importlib.import_module("ckl.interpreter")
+    errors_ = importlib.import_module("ckl.errors")
+    J = interp.Interpreter(True, True)
+    lfails, lev = [], 0
+    for (y, mo, d) in [(1, 1, 1), (400, 12, 31), (1582, 10, 15), (1899, 12, 29), (1899, 12, 30), (1899, 12, 31), (1900, 3, 1), (1969, 12, 31), (2000, 2, 29), (9999, 12, 30)]:
+        for (h, mi, sec) in [(0, 0, 0), (6, 0, 0), (12, 0, 0), (18, 30, 15), (23, 59, 59)]:
+            txt = f"{y:04d}{mo:02d}{d:02d}{h:02d}{mi:02d}{sec:02d}"
+            for n in (0, 1, -1, 31, 365, -366):
+                if (y, mo, d) == (1, 1, 1) and n < 0 or (y == 9999 and n > 1):
+                    continue
+                lev += 1
+                src = (f"def d = date('{txt}'); [date(decimal(d)) == d, string(d + {n} - {n}) == '{txt}', (d + {n}) - d == {n}, "
+                       f"date(int(d)) == date('{txt[:8]}'), string(date(decimal(d)))]")
+                try:
+                    obs = str(J.interpret(src, "-"))
+                except errors_.CklRuntimeError as e:
+                    obs = "RT:" + str(e.msg)
+                exp = f"[TRUE, TRUE, TRUE, TRUE, '{txt}']"
+                if obs != exp and len(lfails) < 3:
+                    lfails.append({"id": "bounded:date-decimal-round-trip-and-arithmetic-through-the-language", "input": src, "observed": obs, "expected": exp})
+    r2 = BoundedResult("date(decimal(d)) == d and date arithmetic through the language (real interpreter)", "10 days x 5 times of day x 6 offsets, before and after 1899-12-30",
+                       lev, lev, lfails, ["00010101060000"], "the conversions as programs use them", time.time() - t2)
     r1 = BoundedResult("roundtrip-time-of-day(real code)",
                        f"all seconds (stride {step}) of 12 boundary days + {nrand} seeded random (day, second) pairs",
                        ev, ev, fails, [str(datetime.datetime(2000, 2, 29, 12, 0, 1))],
                        "IEEE doubles are outside the proof; exact outcomes are enumerated on the real functions",
                        time.time() - t0)
-    return [r0, r1]
+    return [r0, r1, r2]
